@@ -422,6 +422,8 @@ func genC09(g *Gen) {
 		g.do(Step{Op: "Select", Recv: f, Cols: bsList([]string{"A"})})
 		g.end()
 	}
+	g.enumUpperFamilies()
+	g.indexArrangements()
 	colsets := []string{"ABF", "AFTSE", "SREX", "FS", "ATE", "FGX"}
 	sizes := []int{0, 1, 2, 3, 5, 8, 13, 51, 60}
 	for rep := 0; rep < g.pick(40, 900); rep++ {
@@ -505,5 +507,173 @@ func genC09(g *Gen) {
 			g.do(Step{Op: "Equals", Recv: ra, Other: rb})
 		}
 		g.end()
+	}
+}
+
+// enumUpperFamilies: the built-in ToUpper on enum columns rewrites the value table; with case variants
+// among the values two codes come to mean the same string. Frames that show the same strings through
+// different codes are Equal, print alike, and so do their slices and rebuilt copies (C09).
+func (g *Gen) enumUpperFamilies() {
+	pool := []string{"a", "A", "b", "B", "ab", "aB", "Ab", "é", "É", ""}
+	swap := func(s string) string {
+		r := []rune(s)
+		for i, c := range r {
+			switch {
+			case c >= 'a' && c <= 'z':
+				r[i] = c - 32
+			case c >= 'A' && c <= 'Z':
+				r[i] = c + 32
+			case c == 'é':
+				r[i] = 'É'
+			case c == 'É':
+				r[i] = 'é'
+			}
+		}
+		return string(r)
+	}
+	for rep := 0; rep < g.pick(40, 600); rep++ {
+		n := 1 + g.rng.Intn(6)
+		k := 2 + g.rng.Intn(4)
+		vals := g.subset(pool, k)
+		declared := g.rng.Intn(4) != 0
+		var decl []BS
+		if declared {
+			// both case variants of everything used, in a random order
+			set := map[string]bool{}
+			for _, v := range vals {
+				set[v], set[swap(v)] = true, true
+			}
+			all := []string{}
+			for _, p := range pool {
+				if set[p] {
+					all = append(all, p)
+				}
+			}
+			g.rng.Shuffle(len(all), func(i, j int) { all[i], all[j] = all[j], all[i] })
+			decl = bsList(all)
+		}
+		e1, e2 := make([]*BS, n), make([]*BS, n)
+		ints := make([]int64, n)
+		for i := 0; i < n; i++ {
+			ints[i] = int64(g.rng.Intn(3))
+			if g.rng.Intn(8) == 0 {
+				continue
+			}
+			v := vals[g.rng.Intn(len(vals))]
+			e1[i] = bsp(v)
+			if g.rng.Intn(2) == 0 {
+				e2[i] = bsp(swap(v))
+			} else {
+				e2[i] = bsp(v)
+			}
+		}
+		mk := func(e []*BS) Step {
+			return Step{Op: "New", Recv: -1, HasOrder: true, ColOrder: bsList([]string{"A", "E"}), HasEnums: true,
+				Enums: []EnumDecl{{Name: toBS("E"), Vals: decl}},
+				Data:  []ColData{{Name: toBS("A"), Kind: "int", Ints: ints}, {Name: toBS("E"), Kind: "string", Strs: e}}}
+		}
+		up := func(f int, dst string) int {
+			return g.do(Step{Op: "Apply", Recv: f, Instrs: []Instr{{Fn: FnRef{K: "builtin", Sym: "ToUpper"}, Dst: toBS(dst), Src1: toBS("E")}}})
+		}
+		g.begin("enum upper")
+		a0 := g.do(mk(e1))
+		b0 := g.do(mk(e2))
+		dst := g.oneOf([]string{"E", "E", "U"})
+		a1, b1 := up(a0, dst), up(b0, dst)
+		g.do(Step{Op: "Equals", Recv: a1, Other: b1})
+		g.do(Step{Op: "Equals", Recv: b1, Other: a1})
+		g.do(Step{Op: "Equals", Recv: a0, Other: b0})
+		members := []int{a1, b1}
+		// rows showing the same strings, taken from different places
+		for t := 0; t < 3 && n > 1; t++ {
+			i, j := g.rng.Intn(n), g.rng.Intn(n)
+			si := g.do(Step{Op: "Slice", Recv: a1, A: i, B: i + 1})
+			sj := g.do(Step{Op: "Slice", Recv: g.oneOf2(a1, b1), A: j, B: j + 1})
+			g.do(Step{Op: "Equals", Recv: si, Other: sj})
+			sa := g.do(Step{Op: "Select", Recv: si, Cols: bsList([]string{dst})})
+			sb := g.do(Step{Op: "Select", Recv: sj, Cols: bsList([]string{dst})})
+			g.do(Step{Op: "Equals", Recv: sa, Other: sb})
+			g.do(Step{Op: "Equals", Recv: sb, Other: sa})
+		}
+		for _, m := range members {
+			r := g.do(Step{Op: "Rebuild", Recv: m})
+			g.do(Step{Op: "Equals", Recv: m, Other: r})
+			g.do(Step{Op: "Equals", Recv: r, Other: m})
+			g.do(Step{Op: "Equals", Recv: r, Other: g.oneOf2(a1, b1)})
+			g.do(Step{Op: "String", Recv: m})
+			g.do(Step{Op: "ToCSV", Recv: m})
+			g.do(Step{Op: "ToJSON", Recv: m})
+			g.do(Step{Op: "View", Recv: m, Dst: toBS(dst)})
+			u2 := up(m, "V") // upper-casing twice changes nothing
+			g.do(Step{Op: "Equals", Recv: g.do(Step{Op: "Drop", Recv: u2, Cols: bsList([]string{"V"})}), Other: m})
+		}
+		// operations that go by the code are not specified on a collapsed table, but must not panic
+		g.do(Step{Op: "Sort", Recv: a1, Orders: []Order{{Col: toBS(dst)}}})
+		g.do(Step{Op: "Distinct", Recv: b1, Cols: bsList([]string{dst})})
+		g.end()
+	}
+}
+
+func (g *Gen) oneOf2(a, b int) int {
+	if g.rng.Intn(2) == 0 {
+		return a
+	}
+	return b
+}
+
+func permsOf(n int) [][]int {
+	if n == 0 {
+		return [][]int{{}}
+	}
+	r := [][]int{}
+	for _, p := range permsOf(n - 1) {
+		for pos := 0; pos <= len(p); pos++ {
+			q := append(append(append([]int{}, p[:pos]...), n-1), p[pos:]...)
+			r = append(r, q)
+		}
+	}
+	return r
+}
+
+// indexArrangements: every row arrangement of a small frame (all permutations of 4 rows, a sample of
+// those of 5 and 6; all in thorough), optionally of a slice of a larger one, read through ItemAt and
+// then through View.Slice(): both show the same cells in frame order (C09).
+func (g *Gen) indexArrangements() {
+	for _, n := range []int{4, 5, 6} {
+		for _, perm := range permsOf(n) {
+			if n > 4 && !g.thorough() && g.rng.Intn(n*n-13) != 0 { // 5: 1/12, 6: 1/23
+				continue
+			}
+			g.begin("index arrangement")
+			off := g.rng.Intn(3) // rows cut away in front, so that the physical range does not start at 0
+			tot := off + n + g.rng.Intn(2)
+			p := make([]int64, tot)
+			fl := make([]string, tot)
+			bo := make([]bool, tot)
+			for i := range p {
+				p[i] = int64(100 + i)
+				fl[i] = itoa(i) + ".5"
+				bo[i] = g.rng.Intn(2) == 0
+			}
+			for i, v := range perm {
+				p[off+i] = int64(v)
+			}
+			f := g.do(Step{Op: "New", Recv: -1, HasOrder: true, ColOrder: bsList([]string{"P", "F", "T"}),
+				Data: []ColData{{Name: toBS("P"), Kind: "int", Ints: p}, {Name: toBS("F"), Kind: "float", Floats: fl}, {Name: toBS("T"), Kind: "bool", Bools: bo}}})
+			if tot != n {
+				f = g.do(Step{Op: "Slice", Recv: f, A: off, B: off + n})
+			}
+			srt := g.do(Step{Op: "Sort", Recv: f, Orders: []Order{{Col: toBS("P"), Rev: g.rng.Intn(4) == 0}}})
+			cl := Clause{K: "leaf", Col: toBS("P"), CmpK: "str", Cmp: "<", Arg: &Val{T: "int", I: 50}}
+			g.do(Step{Op: "Filter", Recv: srt, Clause: &cl})
+			g.do(Step{Op: "SliceObs", Recv: -1, A: 1}) // every member is now read again through Slice()
+			for _, c := range []string{"P", "F", "T"} {
+				g.do(Step{Op: "View", Recv: srt, Dst: toBS(c)})
+			}
+			g.do(Step{Op: "Select", Recv: srt, Cols: bsList([]string{"F", "P"})})
+			g.do(Step{Op: "Sort", Recv: srt, Orders: []Order{{Col: toBS("F")}}})
+			g.do(Step{Op: "SliceObs", Recv: -1, A: 0})
+			g.end()
+		}
 	}
 }
